@@ -470,3 +470,4 @@ MANIFEST["text"] += ' The delattr sweep over skip_names runs after every restora
 MANIFEST["text"] += ' R7 also: every in-place extension of the skip argument is preceded on every path by a rebinding to a fresh list (must-pass-through on the CFG).'
 MANIFEST["text"] += " Also: an exact-type membership test `type(v) in skip_types` in the save routine is a definite violation (subclass instances must be skipped); an `isinstance(skip, Sequence/Iterable/…)` collection test that a bare str satisfies must be protected by a str test."
 MANIFEST["text"] += ' R8: the skip collections created once per save()/load() and handed to every nested call are read-only inside the traversal functions.'
+MANIFEST["text"] += ' R3 treats the per-loop name filters and the final delattr sweep as coupled defences.'
